@@ -163,6 +163,29 @@ Theorem C01_typed_roundtrip_exact : forall k t v x b,
   exists body, b = framed body /\ typed_read k t (Some body) = Ok v.
 Proof. exact typed_roundtrip_exact. Qed.
 
+(* ... and with nulls ANYWHERE inside: no embedding of the whole value into [cval] is assumed (a
+   [Vec<Option<i32>>] holding a [None], a [BTreeMap<String, Option<BigInt>>] with a null value have
+   none: [CList]/[CSet]/[CMap] have no null elements).  [tgood k t v] (Model/CqlTyped.v section 6)
+   says by recursion over the CARRIER that [v] is a value of the type: leaves embed as values of the
+   type ([wf]), [Option]/[MaybeEmpty] add null/empty at every level, collections and tuples are
+   element-wise; a [Vec] bound to a vector keeps the premises of the theorem above (F2).  What the
+   typed writer emits for such a value is one [bytes] cell that is consumed exactly, whatever
+   follows, and from whose content the typed reader returns [v] itself. *)
+Theorem C01_typed_roundtrip_cells : forall k t v b r,
+  plain k = true -> typed_check k t = true -> tgood k t v = true ->
+  typed_write k true t v = Ok b ->
+  exists ob, read_cql_bytes (b ++ r) = Some (ob, r) /\ typed_read k t ob = Ok v /\
+             (nullable k = false -> ob <> None).
+Proof. intros k t v b r Hp Hc Hg Hw. exact (typed_roundtrip_cells k t v b Hp Hc Hg Hw r). Qed.
+
+(* [tgood] is no narrower than the premises of C01_typed_roundtrip_exact: every carrier value that
+   embeds as a value of the type outside the known classes satisfies it, so the theorem above
+   covers everything the previous one does (and the values with nulls inside in addition) *)
+Theorem C01_typed_cells_subsumes : forall k t v x,
+  plain k = true -> typed_check k t = true -> embed k t v = Some (CVal x) ->
+  wf t x = true -> known_class t x = false -> tgood k t v = true.
+Proof. intros k t v x Hp Hc He Hwf Hk. exact (embed_tgood k t v (CVal x) Hp Hc He (conj Hwf Hk)). Qed.
+
 (* the num-bigint family: from_signed_bytes_be (to_signed_bytes_be z) = z for every integer *)
 Theorem C01_bigint_normal_form : forall z, big_of_bytes (min_twos z) = z.
 Proof. exact big_of_min_twos. Qed.
@@ -446,6 +469,28 @@ Example C01_ex_typed :
   typed_read (KLeaf LString) (TNative NAscii) (Some [195; 169]) = Err DE_ExpectedAscii.
 Proof. cbv zeta. repeat split; vm_compute; reflexivity. Qed.
 
+Example C01_ex_typed_cells :
+  (* Vec<Option<i32>> with a None inside, bound to list<int>: no [cval] has a null list element *)
+  let k1 := KVec (KOption (KLeaf LI32)) in
+  let t1 := TList (TNative NInt) in
+  let v1 := TSeq [TSome (TInt 7); TNone] in
+  plain k1 = true /\ typed_check k1 t1 = true /\ embed k1 t1 v1 = None /\ tgood k1 t1 v1 = true /\
+  typed_write k1 true t1 v1 = Ok [0;0;0;16; 0;0;0;2; 0;0;0;4; 0;0;0;7; 255;255;255;255] /\
+  typed_read k1 t1 (Some [0;0;0;2; 0;0;0;4; 0;0;0;7; 255;255;255;255]) = Ok v1 /\
+  (* BTreeMap<String, Option<BigInt>> with a null value, bound to map<text, varint> *)
+  let k2 := KMapC (KLeaf LString) (KOption (KLeaf LBigInt)) in
+  let t2 := TMap (TNative NText) (TNative NVarint) in
+  let v2 := TMapV [(TBytes [97], TNone); (TBytes [98], TSome (TBig 128))] in
+  plain k2 = true /\ typed_check k2 t2 = true /\ embed k2 t2 v2 = None /\ tgood k2 t2 v2 = true /\
+  typed_write k2 true t2 v2
+    = Ok [0;0;0;24; 0;0;0;2; 0;0;0;1; 97; 255;255;255;255; 0;0;0;1; 98; 0;0;0;2; 0;128] /\
+  typed_read k2 t2 (Some [0;0;0;2; 0;0;0;1; 97; 255;255;255;255; 0;0;0;1; 98; 0;0;0;2; 0;128]) = Ok v2 /\
+  (* what [tgood] refuses: a non-ASCII String at ascii, a Vec with a null element bound to a vector (F2) *)
+  tgood (KVec (KLeaf LString)) (TList (TNative NAscii)) (TSeq [TBytes [195; 169]]) = false /\
+  tgood (KVec (KOption (KLeaf LI32))) (TVector (TNative NInt) 2) (TSeq [TSome (TInt 7); TNone]) = false /\
+  tgood (KVec (KLeaf LI32)) (TVector (TNative NInt) 2) (TSeq [TInt 7; TInt (-1)]) = true.
+Proof. cbv zeta. repeat split; vm_compute; reflexivity. Qed.
+
 Example C01_ex_enc_relation :
   EncR (TList (TTuple [TNative NInt; TNative NText])) (CList [CTuple [Some (CInt 7)]])
        [0;0;0;1; 0;0;0;8; 0;0;0;4; 0;0;0;7] /\
@@ -488,6 +533,8 @@ Print Assumptions C01_typed_write.
 Print Assumptions C01_typed_read.
 Print Assumptions C01_typed_roundtrip.
 Print Assumptions C01_typed_roundtrip_exact.
+Print Assumptions C01_typed_roundtrip_cells.
+Print Assumptions C01_typed_cells_subsumes.
 Print Assumptions C01_bigint_normal_form.
 Print Assumptions C01_fixed_refines.
 Print Assumptions C01_fixed_no_hole.
